@@ -128,6 +128,10 @@ func EncodeWithColor(content string, interleaved bool, color barcode.ColorScheme
 		}
 	}
 
+	if lastRune != nil {
+		return nil, fmt.Errorf("can not encode \"%s\"", content)
+	}
+
 	resBits.AddBit(mode.end...)
 
 	if interleaved {
